@@ -1,4 +1,5 @@
 """C13 — recurrence queries agree with iteration."""
+import itertools
 import oracle
 import gens
 import tpcommon as T
@@ -464,9 +465,78 @@ class QueryFrac(Op):
                                               "on" if a[7] % a[3] == 0 else "off")
 
 
+class DerivedInterval(Op):
+    """The interval of the recurrence is a Duration WITH A PAST: it was asked for its length, compared, hashed and
+    printed, and then another Duration was derived from it by +, -, * or // - the value a client computes a step
+    from.  Every query on the recurrence built with the derived interval must answer exactly as on the recurrence
+    built with the same interval constructed afresh from its fields."""
+    prop = PROP
+    name = "rderivedint"
+    model = False
+
+    def gen(self, rng, tier, boost):
+        n = 300 * boost if tier == "quick" else 3000 * boost
+        for _ in range(n):
+            m = gens.mode(rng)
+            anchor = R.gen_anchor(rng, m)
+            anchor = T.tp_from_inst(m, T.inst(m, anchor), anchor[0], anchor[7], anchor[8])
+            base = (rng.choice([0, 1, 2]), rng.choice([0, 5, 6, 12]), rng.choice([0, 30]), rng.choice([0, 0, 15]))
+            other = (rng.choice([0, 1]), rng.choice([0, 1, 3, 6]), rng.choice([0, 15, 30]), 0)
+            how = rng.choice(["add", "sub", "mul", "floordiv", "radd"])
+            k = rng.choice([2, 3, 4])
+            reps = rng.choice([None, 5, 9, 12])
+            j = rng.randint(0, 6)
+            off = rng.choice([0, 0, 1, -1, 1800, 3600])
+            yield (m, anchor, base, other, how, k, reps, j, off)
+
+    def line(self, a):
+        return "rderivedint %s %s base=%r other=%r %s k=%d reps=%s probe=member %d %+d s" % (
+            a[0], T.tp_str(a[1]), a[2], a[3], a[4], a[5], a[6], a[7], a[8])
+
+    def impl(self, a):
+        from metomi.isodatetime.data import TimeRecurrence, Duration
+        m, anchor, base, other, how, k, reps, j, off = a
+        set_mode(m)
+
+        def dur(t):
+            return Duration(days=t[0], hours=t[1], minutes=t[2], seconds=t[3])
+        d1, d2 = dur(base), dur(other)
+        # the past of d1
+        d1.get_seconds(), d1.get_days_and_seconds(), hash(d1), str(d1), d1 == d2, d1 > d2
+        if how == "add":
+            d = d1 + d2
+        elif how == "radd":
+            d = d2 + d1
+        elif how == "sub":
+            d = d1 - d2
+        elif how == "mul":
+            d = d1 * k
+        else:
+            d = d1 // k
+        fresh = Duration(days=d.days, hours=d.hours, minutes=d.minutes, seconds=d.seconds)
+        if not fresh.get_seconds() > 0:
+            return "skip"
+        p = T.mk_tp(anchor)
+        outs = []
+        for interval in (d, fresh):
+            rec = TimeRecurrence(repetitions=reps, start_point=p, duration=interval)
+            probe = p + fresh * j + Duration(seconds=off)
+            outs.append("%s|%s|%s|%s|%s|%s" % (interval.get_seconds(), rec.get_is_valid(probe),
+                                              rec.get_first_after(probe), rec.get_next(probe), rec.get_prev(probe),
+                                              [str(q) for q in itertools.islice(rec, 4)]))
+        return "same" if outs[0] == outs[1] else "DIFFERENT derived: %s fresh: %s" % (outs[0], outs[1])
+
+    def oracle(self, a, out):
+        if out not in ("same", "skip"):
+            return "%s: %s" % (self.line(a), out)
+
+    def label(self, a):
+        return "rderivedint/%s/%s" % (a[0], a[4])
+
+
 def ops():
     import recmm
     import recqops
-    return [IsValid(), GetItem(), Next(), Prev(), FirstAfter(), QuerySeq(), QueryFrac(),
+    return [IsValid(), GetItem(), Next(), Prev(), FirstAfter(), QuerySeq(), QueryFrac(), DerivedInterval(),
             recmm.RecMMOp(PROP, "mmquery", ["mmritem", "mmrvalid", "mmrvalid", "mmrnext", "mmrprev", "mmrfirst", "mmrfirst"], 700),
             recqops.RecQOp(PROP, "rqueryq", ["rvalidq", "rvalidq", "ritemq", "rfirstq", "rfirstq"], 500)]
